@@ -84,6 +84,95 @@ def run_suite(ctx, suite, reqs, expand):
     return stats, broken
 
 
+def static_doc(rnd, dm):
+    """one state whose transitions carry descriptor lists over the tokens a, b, ab; further event names enter the document
+    through <raise>. -> (xml, [descriptor list per transition])"""
+    toks = ["a", "b", "ab"]
+    def name(): return ".".join(rnd.choice(toks) for _ in range(rnd.randint(1, 3)))
+    def desc():
+        r = rnd.random()
+        if r < 0.08: return "*"
+        d = name(); r = rnd.random()
+        return d + (".*" if r < 0.25 else "." if r < 0.35 else "")
+    lists = [" ".join(desc() for _ in range(rnd.randint(1, 3))) for _ in range(rnd.randint(2, 5))]
+    raised = [name() for _ in range(rnd.randint(2, 6))]
+    xml = ('<scxml xmlns="http://www.w3.org/2005/07/scxml" version="1.0" datamodel="%s"><state id="s"><onentry>%s</onentry>%s</state><state id="t"/></scxml>'
+           % (dm, "".join('<raise event="%s"/>' % n for n in raised), "".join('<transition event="%s" target="t"/>' % l for l in lists)))
+    return xml, lists
+
+
+def suite_static(ctx, n):
+    """the matches the Promela and VHDL back-ends resolve at transform time (prefix trie over the document's event names)
+    against the Recommendation's relation on the same names"""
+    import os, sys, re
+    from uvlib import VERIF
+    sys.path.insert(0, os.path.join(VERIF, "translate"))
+    import vhdl_eqs
+    rnd = ctx.rng
+    docs = [(be,) + static_doc(rnd, "promela" if be == "promela" else "null") for _ in range(n) for be in ("promela", "vhdl")]
+    lines = ["%s\t-\t%s" % (be, hexs(x.encode())) for be, x, _ in docs]
+    rc, H, err = ctx.harness_lines("emit", lines, timeout=1800)
+    if rc != 0 or len(H) != len(lines): raise BrokenTie("harness", "uvharness emit rc=%s" % rc)
+    reqs, index = [], []
+    st = dict(inputs=len(docs), transitions=0, pairs=0, matches=0, violations=0)
+    resolved = []
+    for (be, x, lists), h in zip(docs, H):
+        if h.startswith(("EXC", "CRASH", "EXIT", "bad")): raise BrokenTie("emit", "%s back-end failed on a descriptor document: %s" % (be, h[:200]))
+        text = bytes.fromhex(h).decode("latin-1")
+        words = vhdl_eqs.document_events(x)
+        per = {}
+        if be == "promela":
+            lit = dict((m.group(1), m.group(3)) for m in re.finditer(r"^#define (\S+) (\d+) /\* (.*?) \*/$", text, re.M))
+            for m in re.finditer(r"\|\| \(i == (\d+)(.*)\)\s*$", text, re.M):
+                k = int(m.group(1))
+                if k in per: continue
+                body = m.group(2)
+                per[k] = None if "false" not in body else set(lit.get(mm, "?" + mm) for mm in re.findall(r"== ([A-Za-z0-9_]+)", body))
+        else:
+            # escapeMacro appends a hash *character* to names with dots: any byte may occur inside the identifiers.
+            # The signals are renamed by their position in the declarations before the equations are parsed
+            sigs0 = re.findall(r"^signal event_(.*)_sig : std_logic;", text, re.M)
+            if len(sigs0) != len(words): raise BrokenTie("translate", "%d event signals for %d event names %s" % (len(sigs0), len(words), words))
+            for i in sorted(range(len(sigs0)), key=lambda i: -len(sigs0[i])):
+                text = text.replace("event_%s_sig" % sigs0[i], "event_E%d_sig" % i)
+            try: defs, sigs = vhdl_eqs.extract(text)
+            except vhdl_eqs.ParseError:
+                st["unparsable"] = st.get("unparsable", 0) + 1; continue
+            sigs = ["E%d" % i for i in range(len(sigs0))]
+            def names(e, acc):
+                if e[0] == "name":
+                    mm = re.match(r"event_(.*)_sig$", e[1])
+                    if mm: acc.add(words[sigs.index(mm.group(1))] if mm.group(1) in sigs else "?" + mm.group(1))
+                elif e[0] == "not": names(e[1], acc)
+                elif e[0] in ("and", "or"):
+                    for y in e[1]: names(y, acc)
+                return acc
+            for k in range(len(lists)):
+                d = defs.get("in_optimal_transition_set_%d_sig" % k)
+                if d is None: raise BrokenTie("translate", "no equation for transition %d" % k)
+                per[k] = names(d, set())
+        for k, l in enumerate(lists):
+            if k not in per: raise BrokenTie("translate", "transition %d not found in the emitted %s" % (k, be))
+            for w in words:
+                reqs.append("P\t%s\t%s" % (hexs(l.encode()), hexs(w.encode()))); index.append((be, x, l, w, per[k]))
+    D = []
+    for part in chunks(reqs, 2000): D += ctx.driver_lines("namematch", part)
+    for (be, x, l, w, got), d in zip(index, D):
+        M, S, WF = parse(d, ["M", "S", "WF"])
+        st["pairs"] += 1
+        emitted = True if got is None else (w in got)
+        want = S == "1"
+        st["matches"] += want
+        if emitted == want: continue
+        st["violations"] += 1
+        if len(ctx.violations) < 3:
+            ctx.violation("static-%d" % len(ctx.violations), "static-" + be, ["%s\t-\t%s" % (be, hexs(x.encode()))],
+                          detail="%s back-end: the transition with event=\"%s\" %s the event name %r, Recommendation 3.12.1 says it %s\ndocument: %s" % (be, l, "matches" if emitted else "does not match", w, "matches" if want else "does not match", x))
+    st["transitions"] = sum(len(l) for _, _, l in docs)
+    ctx.add_suite("static-resolution", **st)
+    return st
+
+
 def run(ctx):
     ctx.setup()
     ctx.audit(THEOREMS, LEAN_FILES)
@@ -129,12 +218,13 @@ def run(ctx):
     st2, br = run_suite(ctx, "random", preqs, lambda req, k: pairs[preqs.index(req)])
     broken_all += br
     ctx.sample({"suite": "random", "request": preqs[0], "means": "nameMatch(%r, %r)" % pairs[0]})
+    st3 = suite_static(ctx, 150 if quick else 4000)
     if broken_all and not ctx.violations:
         who, ds, n, v, m = broken_all[0]
         ctx.violation("correspondence", "namematch", ["P\t%s\t%s" % (hexs(ds), hexs(n))], found_input=False,
                       detail="correspondence namematch broken: %s returns %s, model %s on (%r, %r); %d such inputs, none of them well formed, so 3.12.1 is not contradicted" % (who, v, m, ds, n, len(broken_all)))
-    ctx.coverage["evaluations"] = st["inputs"] + st2["inputs"]
+    ctx.coverage["evaluations"] = st["inputs"] + st2["inputs"] + st3["pairs"]
     ctx.coverage["distinct_nontrivial"] = st["wf"] + st2["wf"]
     ctx.coverage["rule"] = "exhaustive: every descriptor list over 'ab.* ' up to length %d x every name up to length %d; random: structured lists with tabs/newlines/upper case/UTF-8 + 10%% arbitrary bytes. non-trivial = descriptor list and name both well formed (spec applies)" % (maxds, maxn)
     ctx.coverage["exhaustive"] = True
-    ctx.assumptions += ["C-locale isspace/tolower", "Promela/VHDL static resolution (Trie) and end-to-end engine runs are covered by the trie suite"]
+    ctx.assumptions += ["C-locale isspace/tolower", "the static resolution of the Promela and VHDL back-ends is read out of the emitted text (suite static-resolution: one state, 2-5 transitions, names over the tokens a/b/ab)"]
